@@ -566,7 +566,7 @@ def m_unknown(s):
             get(c, addr)['enc'] = nope
             yield Mut(c, 'reference', 'unknownEncoding', path, '%s %s encodingType' % (kind, e['k']), 'reject', '')
         if e['k'] == 'type':
-            for bad in ('int128', 'Char', 'uint'):
+            for bad in (('int128', 'Char', 'uint', 'INT8', 'long')[len(path) * 7 % 5],):
                 c = copy.deepcopy(s)
                 get(c, addr)['prim'] = bad
                 yield Mut(c, 'reference', 'unknownPrimitiveType', path, '%s type primitiveType' % kind, 'reject', bad)
@@ -1007,6 +1007,24 @@ def m_constants(s, rng):
                     c = copy.deepcopy(s)
                     get(c, addr)['length'] = ln
                     yield Mut(c, 'constant', 'nonCharConstantLength', path, '%s numeric constant' % kind, 'reject', 'length %d' % ln)
+    # known-finding probe (a): an enum whose encodingType is a *named* char type, and constants that refer to it
+    ct, ce = fresh(s, 'CharT'), fresh(s, 'CharE')
+    base = copy.deepcopy(s)
+    base['types'].append({'k': 'type', 'name': ct, 'prim': 'char'})
+    base['types'].append({'k': 'enum', 'name': ce, 'enc': ct, 'values': [{'name': 'A', 'value': 'A'}, {'name': 'B', 'value': 'B'}]})
+    yield Mut(copy.deepcopy(base), 'constant', None, ['types', ce], 'enum over a named char type', 'accept', 'char-named')
+    for target in ('char', 'uint8', 'int64', 'double'):
+        c = copy.deepcopy(base)
+        k = {'k': 'type', 'name': fresh(s, 'KR'), 'prim': target, 'presence': 'constant', 'valueRef': ce + '.B', 'length': 1}
+        c['types'].append(k)
+        yield Mut(c, 'constant', None, ['types', k['name']], 'top-level constant type %s with valueRef to enum over a named char type' % target,
+                  'accept', 'char-named')
+        if s['messages']:
+            c = copy.deepcopy(base)
+            f = {'name': fresh(s, 'kf'), 'id': 996, 'type': target, 'presence': 'constant', 'valueRef': ce + '.A'}
+            c['messages'][0].setdefault('fields', []).append(f)
+            yield Mut(c, 'constant', None, ['messages', c['messages'][0]['name'], f['name']],
+                      'constant field %s with valueRef to enum over a named char type' % target, 'accept', 'char-named')
     # valueRef constants (types and fields): built on the schema's enums
     for en in enums:
         enc = en['enc']
